@@ -199,7 +199,7 @@ fn one(rng: &mut Rng, op: &str, solver: &str, class: &str, n: usize, guess: usiz
     if rhs_scale == 0.0 { b = vec![0.0; n]; }
     let (x0, cls): (Vec<f64>, String) = match guess {
         0 => (vec![0.0; n], if rhs_scale == 0.0 { format!("zero-{}", class) } else { class.to_string() }),
-        1 => ((0..n).map(|_| rng.range(-8, 8) as f64 / 2.0 * rhs_scale).collect(), class.to_string()),   // random guess of the scale of the solution
+        1 => ((0..n).map(|_| rng.range(-8, 8) as f64 / 2.0 * if rhs_scale == 0.0 { 1.0 } else { rhs_scale }).collect(), class.to_string()),   // random guess of the scale of the solution (of scale 1 for a zero right-hand side)
         2 => (xs.iter().map(|z| z * rhs_scale).collect(), if rhs_scale == 1.0 { format!("exact-{}", class) } else { class.to_string() }),   // exact solution (data are dyadic: A x0 = b exactly)
         3 | 5 => { let far = if guess == 3 { 1048576.0 } else { 1024.0 };      // a guess far from the solution: |b - A x0| >> |b|
                ((0..n).map(|_| (rng.range(-8, 8) as f64 + 0.5) * far * if rhs_scale == 0.0 { 1.0 } else { rhs_scale }).collect(), class.to_string()) }
@@ -228,6 +228,14 @@ pub fn gen(rng: &mut Rng, tier: Tier, out: &mut Vec<String>) {
             out.push(one(rng, "krylov", solver, class, n, guess, budget, tol, scale, 1));
             if k == 1 { out.push(one(rng, "krylov", "bicg", class, n, guess, budget, tol, scale, 2)); }
         }
+    }
+    // zero right-hand side with a NON-zero guess (the divisor of the relative residual is then 1, not ||b||): the solvers
+    // must drive A x to zero in the absolute sense
+    for i in 0..(if tier == Tier::Quick { 16 } else { 200 }) {
+        let n = 1 + rng.below(12);
+        let class = if i % 2 == 0 { "spd" } else { "dd" };
+        for solver in SOLVERS { let tol = *rng.pick(&[1e-10, 1e-8, 1e-6, 1e-4, 1e-2]);
+            out.push(one(rng, "krylov", solver, class, n, 1, 1000, tol, 0.0, 1 + i % 2)); }
     }
     // weakly coupled "point source" systems: a scaled identity off column k, a full column k, a coupling eps = 10^[-9.3,-7]
     // on the super-diagonal, right-hand side e_k (and the 2x2 version [[c, eps],[d, lam]], b = e_1). One stabilised step
